@@ -13,6 +13,8 @@ import Sudachi.Model.Subset
 import Sudachi.Model.Split
 import Sudachi.Model.Params
 import Sudachi.Model.LayersIO
+import Sudachi.Model.Codec
+import Sudachi.Model.CodecBuild
 /-! Line protocol dispatcher: one case per line in, one answer per line out. -/
 namespace Driver
 
@@ -36,6 +38,7 @@ def answer (line : String) : String :=
     | "C09" => Split.handle op rest
     | "C20" => Params.handle op rest
     | "C12" => Layers.handle op rest
+    | "C05" => Codec.handle rest
     | _ => "bad-op"
   | _ => "bad-op"
 
